@@ -668,6 +668,23 @@ pub fn large_bytes(g: &mut Gen, thorough: bool, out: &mut Sink) {
         out.case(&case, &o);
         out.oracle("C05", o.ends_with(&format!("rest={}", tail_len)) && o.starts_with("ok "), &case,
                    &format!("a {} byte string followed by {} bytes: {}", n, tail_len, &o[..o.len().min(60)]));
+        // truncated inside the payload, in the first chunk and after it: the unexpected-length error
+        for cut in [4 + 1000usize, 4 + (1 << 20), 4 + (1 << 20) + 1, bs.len() - 1] {
+            if cut >= bs.len() {
+                continue;
+            }
+            let y = &bs[..cut];
+            let (o, _) = fs_obs::<String>(y);
+            let case = format!("fs {} (str string) {}", MODE, hex(y));
+            out.case(&case, &o);
+            for label in ["C16", "C05"] {
+                out.oracle(label, o == "err invalidData unexpectedLength", &case,
+                           &format!("a {} byte string cut after {} bytes: {}", n, cut, o));
+            }
+            let (o2, _) = fs_obs::<(u8, Vec<u8>)>(&[&[7u8][..], y].concat());
+            out.oracle("C16", o2 == "err invalidData unexpectedLength", &case,
+                       &format!("the same cut inside (u8, Vec<u8>): {}", o2));
+        }
         // the same value inside a tuple: what follows it must still decode
         let pair = (text.clone(), 0xA1B2C3D4u32, vec![1u8, 2, 3]);
         let (_, pb) = enc_obs(&pair);
